@@ -97,7 +97,12 @@ def _work(chunk):
                 out.append((s, css, d, 'select', got, exp_sel))
             if exp_mask:
                 nontriv += 1
-    return out, ncalls, nontriv, len(chunk)
+    samp = None
+    if chunk:
+        c = chunk[-1]
+        k = next((s for s, m in enumerate(c['res']) if m), 0)
+        samp = {'selector': comp[k][0], 'doc': doc_brief(c['doc']), 'predicted_ids': dom.mask_to_ids(c['res'][k])}
+    return out, ncalls, nontriv, len(chunk), samp
 
 
 class PoolReplay:
@@ -140,7 +145,10 @@ class PoolReplay:
             return
         first_docs = 0
         for p in self.pending:
-            out, ncalls, nontriv, ndocs = p.get()
+            out, ncalls, nontriv, ndocs, samp = p.get()
+            if samp:
+                samp['cfg'] = self.label
+                chk.sample(samp, cap=12)
             chk.count(ncalls, traces=ndocs)
             chk.add_distinct(nontriv)
             for (s, css, d, what, got, exp) in out:
